@@ -164,10 +164,13 @@ def _c08() -> SimEngine:
         for second in (None, sib):
             c, _ = sweep_space(perts, max_tick=6, places=("inline", "task"), second=second, tail=[{"op": "until_closed", "pool": 0}, {"op": "tick", "k": 2}])
             cases += c
+            respawn = {"op": "spawn", "pool": 0, "kind": "apply", "num": 2, "worker": {"script": [["yield", 1]], "fname": "w"}, "place": "inline"}
             for case in c:
                 # the same with a group cancelled in the very tick of the call
                 cc = {"pools": case["pools"], "steps": case["steps"][:-3] + [pre] + case["steps"][-3:]}
                 cases.append(cc)
+                # ... and with a new request (possibly taking the freed name) between the cancellation and the call
+                cases.append({"pools": case["pools"], "steps": case["steps"][:-3] + [pre, respawn] + case["steps"][-3:]})
         if tier == "quick":
             cases = cases[::8]
         return ("base scenario (+sibling map) x [cancel_group in the same tick] x gather_and_close at every tick 0..6", cases, len(cases))
@@ -184,7 +187,7 @@ def _c08() -> SimEngine:
 
 def _c09() -> SimEngine:
     prof = profile(p_gname=0.5, ops={"bad_spawn": 4, "bad_pool": 0.5, "lock": 2.5, "unlock": 2, "close": 0.6, "spawn": 8, "cancel_group": 0.8,
-                                     "set_size": 0.5, "gate": 5}, new_sizes=[-1, -2, -3])
+                                     "set_size": 0.5, "gate": 5}, new_sizes=[-1, -2, -3, -0.5, -0.001])
     return SimEngine(
         "C09",
         "every spawning method with rejection causes and their combinations (locked, closed, non-coroutine function: plain def / lambda / "
